@@ -1,4 +1,5 @@
 import GSProofs.Lemmas.PeerManagerInv
+import GSProofs.Lemmas.MsgQueueNotes5
 /-!
 # C17 — One live message queue per peer, delivering in queued order
 
@@ -179,5 +180,74 @@ theorem no_outlive_after_disconnect {s : State} (h : Reachable s) (p : Nat) {e :
 example : ∃ s e, Reachable s ∧ lookup s.table 0 = some e ∧ e.refcnt ≤ 1 ∧ (live s 0).length = 2 :=
   ⟨run {} [.connected 0, .disconnected 0, .shutdownCall 0, .connected 0], { peer := 0, refcnt := 1, qid := 1 },
     ⟨_, rfl⟩, by decide, by decide, by decide⟩
+
+/-! ## (S3) messages leave in the order they were queued
+
+Model `GS.MQ`.  A message is a builder; builders get consecutive topics in the order they are started
+(`buildMessage`: `topic := nextBuilderTopic; nextBuilderTopic++`), transactions only ever append to
+the last builder, and `Event.wire t 0` records that message `t` is handed to `SendMsg` for the first
+time (`wiresOf log` lists these topics in order). -/
+
+def MQReachable (pick : GS.Alloc.Pick) (peer mr mt mp : Nat) (s : GS.MQ.State) : Prop :=
+  ∃ acts : List GS.MQ.Act, s = GS.MQ.runActs pick (GS.MQ.init peer mr mt mp) acts
+
+open GS.MQ in
+/-- **(S3) FIFO between messages, on every schedule**: the topics of the messages handed to the
+    network are strictly increasing (= the order in which their builders were started), every message
+    still queued comes after everything already on the wire, and the queued builders are in
+    creation order. -/
+theorem fifo {pick : GS.Alloc.Pick} {peer mr mt mp : Nat} {s : GS.MQ.State} (h : MQReachable pick peer mr mt mp s) :
+    (wiresOf s.log).Pairwise (· < ·) ∧
+    (s.pc ≠ .exited → (topicsOf s.builders).Pairwise (· < ·) ∧
+      ∀ w ∈ wiresOf s.log, ∀ t ∈ topicsOf s.builders, w < t) := by
+  obtain ⟨acts, rfl⟩ := h
+  rcases runActs_J pick (init_J peer mr mt mp) acts with hf | hn
+  · exact ⟨hf.wsorted, fun hne => absurd hf.pc hne⟩
+  · generalize runActs pick (init peer mr mt mp) acts = s at hn
+    unfold NInv at hn
+    have mid : ∀ {m : InFlight} {U : List Sub} {b : Bool}, Mid s m U [Kind.queued] b →
+        (wiresOf s.log).Pairwise (· < ·) ∧ (s.pc ≠ .exited → (topicsOf s.builders).Pairwise (· < ·) ∧
+          ∀ w ∈ wiresOf s.log, ∀ t ∈ topicsOf s.builders, w < t) := by
+      intro m U b hm
+      refine ⟨hm.wsorted, fun _ => ⟨hm.sorted, ?_⟩⟩
+      intro w hw t ht
+      have h1 := hm.wbelow w hw
+      have h2 := hm.mBelow.2 t ht
+      cases b
+      · have h1' : w ≤ (m.topic : Nat) := by simpa using h1
+        exact Nat.lt_of_le_of_lt h1' h2
+      · have h1' : w < (m.topic : Nat) := by simpa using h1
+        exact Nat.lt_trans h1' h2
+    cases hp : s.pc with
+    | idle => rw [hp] at hn; exact ⟨hn.wsorted, fun _ => ⟨hn.sorted, fun w hw t ht => (hn.wbelow w hw).2 t ht⟩⟩
+    | exiting => rw [hp] at hn; exact ⟨hn.wsorted, fun _ => ⟨hn.sorted, fun w hw t ht => (hn.wbelow w hw).2 t ht⟩⟩
+    | exited => rw [hp] at hn; exact absurd hn (fun x => x)
+    | opening m r =>
+      rw [hp] at hn
+      cases r with
+      | none => obtain ⟨U, hm⟩ := hn; rw [← hp]; exact mid hm
+      | some i => obtain ⟨U, hm⟩ := hn; rw [← hp]; exact mid hm
+    | sending m i => rw [hp] at hn; obtain ⟨U, hm⟩ := hn; rw [← hp]; exact mid hm
+    | resetting m i => rw [hp] at hn; obtain ⟨U, hm⟩ := hn; rw [← hp]; exact mid hm
+
+open GS.MQ in
+/-- **(S3) FIFO inside a message**: an operation of a transaction appends its link at the end of its
+    request's link list — the links of a request are on the wire in the order they were queued. -/
+theorem fifo_links (b : Builder) (r : Req) (c sz : Nat) (send : Bool) :
+    aget (b.apply r (.block c sz send)).responses r = some ((aget b.responses r).getD [] ++ [(c, true)]) ∧
+    aget (b.apply r (.missing c)).responses r = some ((aget b.responses r).getD [] ++ [(c, false)]) := by
+  have key : ∀ (m : List (Req × List (Cid × Bool))) (v : List (Cid × Bool)), aget (aset m r v) r = some v := by
+    intro m v
+    induction m with
+    | nil => simp [aset, aget]
+    | cons e rest ih =>
+      obtain ⟨k, x⟩ := e
+      simp only [aset]
+      split
+      · simp [aget]
+      · next hk => simp [aget, hk, ih]
+  constructor
+  · cases send <;> simp only [Builder.apply] <;> exact key _ _
+  · exact key _ _
 
 end GS.C17
